@@ -326,8 +326,8 @@ pub fn strategy() -> impl Strategy<Value = Case> {
             0u8..5,
             jpieces(),
             jtext(),
-            prop::option::weighted(0.6, prop_oneof![4 => jtext(), 1 => prop::sample::select(crate::pat::STATIC_SITES.to_vec()).prop_map(|s| s.to_string())]),
-            prop::option::weighted(0.6, prop_oneof![4 => jtext(), 1 => prop::sample::select(crate::pat::STATIC_SITES.to_vec()).prop_map(|s| s.to_string())]),
+            prop::option::weighted(0.6, prop_oneof![4 => jtext(), 1 => prop::sample::select(crate::pat::static_sites().to_vec()).prop_map(|s| s.to_string())]),
+            prop::option::weighted(0.6, prop_oneof![4 => jtext(), 1 => prop::sample::select(crate::pat::static_sites().to_vec()).prop_map(|s| s.to_string())]),
             prop::option::weighted(0.6, prop_oneof![Just(0u32), Just(u32::MAX), any::<u32>()]),
             mdc_map(),
         ),
@@ -411,6 +411,26 @@ fn check_on_thread(case: &Case, obs: &mut Obs, thread_name: Option<&str>) -> Cas
             return fail("C12:panic", format!("encoding the preceding record panicked: {}", p));
         }
         obs.class("after-a-record-with-the-mdc-boundaries-shifted");
+    }
+    // the record before came from "the same place" as far as addresses go: its module path / file are the strings that
+    // start at the same address as this record's and have another length, the line is the same
+    {
+        let twin = |s: &Option<String>| s.as_deref().and_then(crate::pat::static_twin).map(|t| t.to_string());
+        let (tm, tf) = (twin(&rec.module), twin(&rec.file));
+        if tm.is_some() || tf.is_some() {
+            let mut other = rec.clone();
+            other.msg = vec!["the record before, from next door".into()];
+            if let Some(m) = tm {
+                other.module = Some(m);
+            }
+            if let Some(f) = tf {
+                other.file = Some(f);
+            }
+            if let Err(p) = catch(|| encode_with(enc, &other, vec![])) {
+                return fail("C12:panic", format!("encoding the preceding record panicked: {}", p));
+            }
+            obs.class("after-a-record-whose-static-site-strings-start-at-the-same-address");
+        }
     }
     let t0 = chrono::Utc::now();
     let (w, res) = match catch(|| encode_with(enc, rec, case.script.clone())) {
@@ -568,7 +588,70 @@ pub fn check(case: &Case, obs: &mut Obs) -> CaseResult {
     }
 }
 
+/// A message argument whose Display encodes two records of its own (through the same encoder, into another sink) while
+/// the outer record is being encoded: a logging call inside a `Display` impl, a lazily evaluated field that logs. Every
+/// one of the three records is one line of its own.
+#[derive(Serialize, Deserialize, Debug, Clone)]
+pub struct Nested {
+    pub text: String,
+    pub ctor: u8,
+}
+
+struct NestingArg<'a> {
+    enc: &'a dyn log4rs::encode::Encode,
+    side: &'a std::cell::RefCell<Vec<(Vec<u8>, bool)>>,
+}
+
+impl<'a> std::fmt::Display for NestingArg<'a> {
+    fn fmt(&self, _: &mut std::fmt::Formatter) -> std::fmt::Result {
+        for i in 0..2 {
+            let mut w = crate::pat::CapW::new(vec![]);
+            let ok = self
+                .enc
+                .encode(&mut w, &log::Record::builder().args(format_args!("inner-{}", i)).level(log::Level::Debug).target("inner").build())
+                .is_ok();
+            self.side.borrow_mut().push((w.bytes(), ok));
+        }
+        Ok(())
+    }
+}
+
+pub fn check_nested(c: &Nested, obs: &mut Obs) -> CaseResult {
+    let enc = make_json_encoder(c.ctor).map_err(|e| Failure { sig: "C12:constructor".into(), msg: e })?;
+    let side = std::cell::RefCell::new(vec![]);
+    let mut w = crate::pat::CapW::new(vec![]);
+    let arg = NestingArg { enc: &*enc, side: &side };
+    let r = catch(|| enc.encode(&mut w, &log::Record::builder().args(format_args!("{}{}", arg, c.text)).level(log::Level::Info).target("outer").build()));
+    match r {
+        Err(p) => return fail("C12:panic", format!("encoding a record whose argument encodes records of its own panicked: {}", p)),
+        Ok(Err(e)) => return fail("C12:encode-error", format!("encode returned Err: {}", e)),
+        Ok(Ok(())) => {}
+    }
+    let mut lines: Vec<(String, Vec<u8>)> = vec![(c.text.clone(), w.bytes())];
+    for (i, (b, ok)) in side.borrow().iter().enumerate() {
+        ensure!(*ok, "C12:encode-error", "the nested encode #{} returned an error", i);
+        lines.push((format!("inner-{}", i), b.clone()));
+    }
+    ensure!(lines.len() == 3, "C12:harness", "{} records instead of 3", lines.len());
+    for (msg, bytes) in &lines {
+        obs.sub_evals += 1;
+        ensure!(bytes.last() == Some(&b'\n'), "C12:no-trailing-newline", "a record encoded while another record was being encoded on the same thread (message {:?}) does not end with a newline: {:?}", msg, String::from_utf8_lossy(bytes));
+        let body = &bytes[..bytes.len() - 1];
+        ensure!(!body.iter().any(|b| *b < 0x20), "C12:raw-control", "raw control byte inside the line of {:?}: {:?}", msg, String::from_utf8_lossy(body));
+        let j = parse_strict(body).map_err(|e| Failure { sig: "C12:not-json".into(), msg: format!("nested situation, record {:?}: {} :: {:?}", msg, e, String::from_utf8_lossy(body)) })?;
+        match &j {
+            J::Obj(o) => ensure!(get(o, "message") == Some(&J::Str(msg.clone())), "C12:field:message", "nested situation: message is {:?}, expected {:?}", get(o, "message"), msg),
+            other => return fail("C12:not-json", format!("not an object: {:?}", other)),
+        }
+    }
+    obs.nontrivial = true;
+    obs.class("argument-encodes-records-of-its-own");
+    Ok(())
+}
+
 pub fn run(run: &Run) {
+    run.run_replays::<Nested>("nested", &check_nested);
+    run.search("nested", run.tier.pick(300, 20_000), (jtext(), 0u8..3).prop_map(|(text, ctor)| Nested { text, ctor }), &check_nested);
     run.run_replays::<Case>("record", &check);
     run.search("record", run.tier.pick(20_000, 2_000_000), strategy(), &check);
 }
@@ -576,6 +659,7 @@ pub fn run(run: &Run) {
 pub fn replay(part: &str, case: serde_json::Value) -> Option<CaseResult> {
     match part {
         "record" => Some(check(&serde_json::from_value(case).ok()?, &mut Obs::default())),
+        "nested" => Some(check_nested(&serde_json::from_value(case).ok()?, &mut Obs::default())),
         _ => None,
     }
 }
@@ -583,7 +667,7 @@ pub fn replay(part: &str, case: serde_json::Value) -> Option<CaseResult> {
 pub fn meta() -> EvidenceMeta {
     EvidenceMeta {
         level: "exploration",
-        rule: "cases = generated records (5 levels; message in 1-4 pieces; strings biased towards quote, backslash, slash, U+0000-001F, U+007F, U+0085, U+2028/9, non-BMP, combining marks, arbitrary chars, and >=1 KiB repetitions; optional fields present/absent; MDC maps of 0-5 entries with such keys/values (a quarter of them also hold keys that differ only in letter case or by a compatibility look-alike); module path and file may be `&'static str`s handed over through module_path_static / file_static (backslashes, quotes, controls); main or named thread; scripted short writes); oracle = output is exactly one line (final newline, no byte < 0x20 before it), parses with the harness's own strict RFC 8259 parser (rejects raw controls, duplicate keys, trailing garbage) and with serde_json, every documented field equals the record's value exactly, absent optional fields are omitted, time is RFC 3339 inside the encode bracket, no undocumented key; In 20% of the messages every character is delivered on its own (the way char arguments arrive); in 30% of the cases the same thread first encodes a record whose MDC holds the same bytes with every key/value boundary moved by one character. The first message argument may insert an MDC entry while it is being formatted (the line stays one well-formed object); no style request may reach the writer. Text fields may hold one uninterrupted plain run of 8-20 kB; the encoder is built by JsonEncoder::new(), Default::default() or the kind: json deserializer; the sink may answer write calls with ErrorKind::Interrupted. non-trivial = some string needs escaping or an optional field is absent; distinct = FNV hash of the case".into(),
+        rule: "cases = generated records (5 levels; message in 1-4 pieces; strings biased towards quote, backslash, slash, U+0000-001F, U+007F, U+0085, U+2028/9, non-BMP, combining marks, arbitrary chars, and >=1 KiB repetitions; optional fields present/absent; MDC maps of 0-5 entries with such keys/values (a quarter of them also hold keys that differ only in letter case or by a compatibility look-alike); module path and file may be `&'static str`s handed over through module_path_static / file_static (backslashes, quotes, controls); main or named thread; scripted short writes); oracle = output is exactly one line (final newline, no byte < 0x20 before it), parses with the harness's own strict RFC 8259 parser (rejects raw controls, duplicate keys, trailing garbage) and with serde_json, every documented field equals the record's value exactly, absent optional fields are omitted, time is RFC 3339 inside the encode bracket, no undocumented key; In 20% of the messages every character is delivered on its own (the way char arguments arrive); in 30% of the cases the same thread first encodes a record whose MDC holds the same bytes with every key/value boundary moved by one character. The first message argument may insert an MDC entry while it is being formatted (the line stays one well-formed object); no style request may reach the writer. Part nested: a message argument whose Display encodes two records of its own through the same encoder - all three are lines of their own. A record may follow one whose module path / file are the `&'static str`s that start at the same address and have another length (same line). Text fields may hold one uninterrupted plain run of 8-20 kB; the encoder is built by JsonEncoder::new(), Default::default() or the kind: json deserializer; the sink may answer write calls with ErrorKind::Interrupted. non-trivial = some string needs escaping or an optional field is absent; distinct = FNV hash of the case".into(),
         assumptions: vec!["'control character' = U+0000-U+001F (JSON's own definition); U+007F/U+0085/U+2028/9 are legal raw and only counted".into()],
         mutants_caught: vec![],
     }
